@@ -11,12 +11,14 @@ transform renamed to the kernel's (`base_fft.get_inplace_scratch_len()` is the s
 transforms are immutable, R-NOCELL).
 
 PROVED     in every case the difference is non-negative for all values of the atoms (A-SYM prover);
-REFUTED    only for exported algorithm types: a concrete assignment of the independent quantities (own length, each
+REFUTED    a concrete assignment of the independent quantities (own length, each
            inner transform's length and requirements) satisfies every case and path condition and makes the slice
            shorter than the requirement -- a VIOLATION with that assignment as witness (the inner transform then panics with
            'Not enough scratch space' inside a well-shaped call, or the advertised size is simply wrong);
-UNDECIDED  everything else (loop-carried lengths, requirements bounded by constructor asserts, crate-private types whose
-           inner transforms only the planner chooses): inventoried, never an alarm.
+UNDECIDED  everything else (loop-carried lengths, unmodelled buffers, a scratch-relevant condition that was not understood):
+           inventoried, never an alarm.  Crate-private wrappers (RadixN, the SIMD types) are judged like exported ones: the
+           planners build them over arbitrary planned inner transforms (a Rader base needs 0 < scratch <= len, a Bluestein base
+           more than len), so the independent quantities of the model are realisable through the public planners.
 """
 from collections import defaultdict
 from itertools import product
@@ -46,6 +48,8 @@ class GCtx(SymCtx):
         SymCtx.__init__(self, F, K, env)
         self.mode = mode            # 'kernel' | 'ctor'
         self.maxdefs = {}
+        self.lit_block = None           # ctor mode: block of the struct literal being evaluated
+        self._reach = None
         self.not_understood = False     # some condition on a relevant path could not be expressed: no refutation then
         self.callsite = {}          # callee body id -> (caller body, call terminator, tupled?) : the one calling context being judged
 
@@ -82,6 +86,19 @@ class GCtx(SymCtx):
                     return False        # loop-carried / opaque local: constrains only itself
             return False
         return not relevant(e)
+
+    def _reach_from_lit(self, b):
+        if self._reach is None:
+            seen = set()
+            st = list(b.succ(self.lit_block))
+            while st:
+                x = st.pop()
+                if x in seen:
+                    continue
+                seen.add(x)
+                st.extend(b.succ(x))
+            self._reach = seen
+        return self._reach
 
     def inner_atom(self, key, what):
         a = ("inner", key, what)
@@ -161,6 +178,19 @@ class GCtx(SymCtx):
                 return Poly.atom(self.inner_atom(("ctor", recv[1]), what))
             if self.mode == "ctor" and recv[0] == "multi":
                 return Poly.atom(self.inner_atom(("ctorlocal", recv[1]), what))
+        if self.mode == "ctor" and isinstance(e, tuple) and e[0] == "multi" and self.lit_block is not None:
+            # a loop-carried local (`cross_fft_len *= radix`) read after its loop: one opaque value, provided no assignment
+            # of it can still follow the struct literal (all reads we evaluate then see the final value)
+            try:
+                return SymCtx.sym(self, b, e, depth)
+            except Undecided:
+                defs = b.whole_defs(e[1])
+                if defs and b.tys(e[1]) == "usize" and not any(d[0] in self._reach_from_lit(b) for d in defs):
+                    a = ("ctorloop", e[1])
+                    if a not in self.info:
+                        self.info[a] = {"lo": Poly.const(0), "hi": None}
+                    return Poly.atom(a)
+                raise
         if self.mode == "ctor" and isinstance(e, tuple) and e[0] == "param":
             a = ("ctorparam", e[1])
             if a not in self.info:
@@ -172,6 +202,17 @@ class GCtx(SymCtx):
     def symg(self, b, e, depth=0, seen=()):
         if depth > 14 or not isinstance(e, tuple):
             raise Undecided("depth")
+        k = e[0]
+        if k == "multi" and self.mode == "ctor" and self.lit_block is not None and depth < 14:
+            try:
+                return self._symg_multi(b, e, depth, seen)
+            except Undecided:
+                return [([], self.sym(b, e, depth + 1))]
+        if k == "multi":
+            return self._symg_multi(b, e, depth, seen)
+        return self._symg_rest(b, e, depth, seen)
+
+    def _symg_multi(self, b, e, depth, seen):
         k = e[0]
         if k == "multi":
             if e[1] in seen:
@@ -194,6 +235,10 @@ class GCtx(SymCtx):
             if len(out) > 24:
                 raise Undecided("too many cases")
             return out
+        raise Undecided("not a multi")
+
+    def _symg_rest(self, b, e, depth, seen):
+        k = e[0]
         if k == "call" and len(e[2]) == 2 and (e[1].endswith("cmp::max") or e[1].endswith("Ord::max") or e[1].endswith("cmp::min") or e[1].endswith("Ord::min")):
             is_max = "max" in e[1].rsplit("::", 1)[-1]
             A = self.symg(b, e[2][0], depth + 1, seen)
@@ -227,6 +272,20 @@ class GCtx(SymCtx):
             return out
         if k == "cast" and e[1] == "IntToInt":
             return self.symg(b, e[3], depth + 1, seen)
+        if k == "field" and e[1][0] == "multi" and len(e[1]) > 1 and e[2] and e[2][0][0] == "f" and len(e[2]) == 1:
+            # component of a tuple assigned in several branches: one guarded case per definition
+            defs = b.tuple_field_defs(e[1][1], e[2][0][1])
+            if defs:
+                out = []
+                for (dbi, op) in defs:
+                    sub = self.symg(b, b.expr(op, rich=True), depth + 1, seen)
+                    conds, _ok = self.conditions(b, dbi)
+                    if not _ok:
+                        self.not_understood = True
+                    out += [(c + conds, p) for (c, p) in sub]
+                if len(out) > 24:
+                    raise Undecided("too many cases")
+                return out
         return [([], self.sym(b, e, depth + 1))]
 
     def symlen(self, b, e, depth=0):
@@ -269,6 +328,10 @@ def _struct_cases(F, K, adt):
         return out
     for (cb, n) in _adt_literals(F).get(adt, []):
         ctx = GCtx(F, K, {}, "ctor")
+        try:
+            ctx.lit_block = next(i for i, bb in enumerate(cb.blocks) if any(x is n for x in bb["s"]))
+        except StopIteration:
+            ctx.lit_block = None
         fields = {}
         slens = {}
         rename = {}      # ('ctor', param) / ('ctorlocal', local) -> field path
@@ -414,7 +477,7 @@ def r_suffice(F, cfg):
             if verdict == "proved":
                 n_proved += 1
                 R.ok({"type": adt, "entry_kind": ek, "site": where, "inner_needs": ik, "cases": detail}, nontrivial=True, sample_cap=12)
-            elif verdict == "refuted" and exported:
+            elif verdict == "refuted":
                 n_refuted += 1
                 R.violation("suffice:%s:%s" % (tag, fnname), where,
                             "%s hands inner transform self.%s a scratch slice that can be shorter than its %s requirement: %s"
@@ -536,15 +599,17 @@ def _witness(goal, conds, maxdefs=None):
     if any(a not in maxdefs for a in derived):
         return None
     atoms = {a for a in atoms if a[0] not in ("max", "min")}
-    if any(a[0] not in ("inner", "pow2") for a in atoms):
+    if any(a[0] not in ("inner", "pow2", "ctorloop") for a in atoms):
         return None
+    if any(a[0] == "ctorloop" for a in atoms) and any(a[0] == "pow2" or (a[0] == "inner" and a[2] == "len") for a in atoms):
+        return None      # the final value of a constructor loop is tied to the other length quantities by a loop invariant we do not have
     atoms = sorted(atoms, key=repr)
     if len(atoms) > 6:
         return None
     grid0 = [0, 1, 2, 3, 5, 8, 13, 40]
     # lengths first try a natural value (8), requirements start from 0: the first witness found is the one reported
     glen = [8, 13, 5, 3, 2, 1, 40]
-    grids = [glen if (a[0] == "inner" and a[2] == "len") else ([1, 2, 5, 8] if a[0] == "pow2" else grid0) for a in atoms]
+    grids = [glen if (a[0] == "inner" and a[2] == "len") else ([1, 2, 5, 8] if a[0] == "pow2" else ([8, 13, 40, 3] if a[0] == "ctorloop" else grid0)) for a in atoms]
     for vals in product(*grids):
         env = dict(zip(atoms, vals))
         try:
@@ -574,4 +639,6 @@ def _wname(a):
         return "self.%s%s" % (".".join(map(str, a[1])) if isinstance(a[1], tuple) else a[1], "" if a[2] == "field" else "." + a[2])
     if a[0] == "pow2":
         return "(1 << k)"
+    if a[0] == "ctorloop":
+        return "len (final value of the constructor's loop variable _%s)" % a[1]
     return _aname(a)
